@@ -36,7 +36,11 @@ MANIFEST = dict(
           "chunking (callbacks_of_written_document), every start tag at the line/column of its '<' (derivedPos), hence adapter + machine "
           "yield normalise; html.unescape and str.lower are the only parameters (ParamsOK). Stream written-text: Lean writeText = the Python "
           "writer's plain-mode text, Writable holds, derivedPos = the writer's offsets, recorder = Lean tokenizer = emit on those texts, "
-          "ParamsOK sampled against the real functions."),
+          "ParamsOK sampled against the real functions. script/style: parse_of_written_document_raw / raw_text_element_tokens - WritableRaw "
+          "admits a script/style element with ONE text written verbatim whose every '</' (also one at its end) is followed by neither "
+          "whitespace nor the first letter of the name in either case (rawTextOK): the tokenizer's CDATA mode gives starttag, ONE data, endtag, "
+          "the tree has one Script/Stylesheet string. Stream written-raw: Lean rawTextOK/WritableRaw/writeText = the Python side, and where "
+          "WritableRaw holds recorder = emit, real parse = normalise = intended fold, one string of the container's class; where not, counted."),
     design="7/C04",
     note=("CPython's tokenizer is outside the repository: it is modelled in Lean and tied to the real one by exact equality of the callback "
           "streams on every text of the run (html.unescape, str.lower and the HTML5 entity table are parameters answered by the real "
@@ -853,6 +857,134 @@ def writer_stream(ctx, drv):
                   + (":stream-as-emitted" if same_stream else ":not-writable"))
 
 
+# ------------------------------------------------------------------------------------------------
+# written documents with <script>/<style> (Props/C04 parse_of_written_document_raw, raw_text_element_tokens)
+# ------------------------------------------------------------------------------------------------
+RAW_ATOMS = ["a", " ", "\n", "<", ">", "&", "&amp;", "&#60;", "</", "</p>", "<p>", "<!--", "-->", "x = \"</p>\";", "if (a < b && c) {", "}",
+             "</s", "</S", "</sc", "</ script", "</\n", "</\t", "</ p", "</script", "</script>", "</SCRIPT>", "</script >", "</scripts>", "</style",
+             "</style>", "</STYLE >", "</t", "</\u017f", "/", "s", "\u017f", "]]>", "<![CDATA[", "<?"]
+
+
+def py_raw_text_ok(name, t):
+    """Python mirror of `Model/WriterText.lean: rawTextOK` (tied to it by the `c04 rawok` op): every `</` in `t + "<"` is followed by a
+    character that is neither whitespace (str.isspace) nor, under re.I, the first letter of the element's name."""
+    import re as _re
+    first = _re.compile(_re.escape(name[0]), _re.I)
+    u = t + "<"
+    for i in range(len(u) - 2):
+        if u[i] == "<" and u[i + 1] == "/":
+            ch = u[i + 2]
+            if ch.isspace() or first.fullmatch(ch):
+                return False
+    return True
+
+
+def raw_text_stream(ctx, drv, tk_texts):
+    """Documents of `gen_tree` in which every script/style element gets ONE text child made of RAW_ATOMS (on both sides of `rawTextOK`),
+    written in `plain` mode (raw text verbatim). Checked: Lean `rawTextOK` = its Python mirror; Lean `WritableRaw` = "no raw text fails
+    the mirror" and Lean `writeText` = the Python writer's text; where `WritableRaw` holds the theorem's conclusion on the REAL code:
+    recorder(text) = `emit` up to data chunking, real parse = `normalise` = the fold of the intended events, every raw text ONE string of
+    class Script / Stylesheet (direct oracle). Where it does not hold: how often the conclusion fails (the condition is sufficient, not
+    necessary). The texts also go to the tokenizer-model stream."""
+    from bs4.element import Script, Stylesheet
+    lines, meta, oklines, okmeta = [], [], [], []
+    for i in range(ctx.n(1200, 12000)):
+        r = ctx.rng("written-raw", i)
+        x = ctx.rng("written-raw-extra", i)
+        nodes = gen_tree(r)
+        raws = []
+
+        def fill(ns):
+            for j, nd in enumerate(ns):
+                if nd[0] == "e" and nd[1] in ("script", "style"):
+                    t = "".join(x.choice(RAW_ATOMS) for _ in range(x.randint(0, 5)))
+                    if x.random() < 0.5:
+                        t = t.replace("</s", "<s").replace("</S", "<S")
+                    ns[j] = ("e", nd[1], nd[2], [("t", t)])
+                    raws.append((nd[1], t))
+                elif nd[0] == "e":
+                    fill(nd[3])
+        fill(nodes)
+        if not raws:
+            nm = x.choice(["script", "style"])
+            t = "".join(x.choice(RAW_ATOMS) for _ in range(x.randint(0, 5)))
+            nodes.insert(x.randint(0, len(nodes)), ("e", nm, [], [("t", t)]))
+            raws.append((nm, t))
+        log = ChoiceLog(ctx.rng("written-raw-choices", i))
+        offsets = []
+        text = write(r, nodes, offsets, [0], log=log, plain=True)
+        tk_texts.setdefault(text, None)
+        doc = doc_tokens(nodes, iter(offsets), text)
+        ent = ";".join(log.entries) or "-"
+        lines.append(f"c04 wraw {cfg_tokens({}).split()[0]} {doc} {ent}")
+        lines.append(f"c04 emit {cfg_tokens({})} {doc} {ent}")
+        lines.append(f"c04 norm {cfg_tokens({})} {doc}")
+        meta.append((text, nodes, offsets, raws))
+        for nm, t in raws:
+            oklines.append(f"c04 rawok {cps(nm)} {cps(t) or '-'}")
+            okmeta.append((nm, t))
+    rep = drv.ask(oklines)
+    for (nm, t), b in zip(okmeta, rep):
+        if (b == "1") != py_raw_text_ok(nm, t):
+            ctx.corr_disagreements += 1
+            ctx.violation("Lean rawTextOK differs from its Python mirror", case={"name": nm, "text": t}, model=b, stream="written-raw",
+                          no_failing_input=True)
+    rep = drv.ask(lines)
+    for j, (text, nodes, offsets, raws) in enumerate(meta):
+        wr, w, mtext = rep[3 * j].split("|")
+        em, nm_ = rep[3 * j + 1], rep[3 * j + 2]
+        case = {"text": text}
+        ok = all(py_raw_text_ok(nm, t) for nm, t in raws)
+        if (wr == "1") != ok or w != "0":
+            ctx.corr_disagreements += 1
+            ctx.violation(f"WritableRaw is {wr} (Writable {w}) for a document whose raw texts are {'all' if ok else 'not all'} rawTextOK",
+                          case=case, stream="written-raw", no_failing_input=True)
+        if uncps(mtext) != text:
+            ctx.corr_disagreements += 1
+            ctx.violation("Lean writeText differs from the Python writer's plain text (document with script/style)", case=case,
+                          observed=text, model=uncps(mtext), stream="written-raw", no_failing_input=True)
+        evs = record(text)
+        same_stream = evs is not None and merge_data(evs) == merge_data([] if em == "-" else em.split(";"))
+        try:
+            soup = real_parse(text, {})
+            got = shape(soup)
+        except Exception as e:
+            soup, got = None, f"raised {type(e).__name__}"
+        def noempty(ns):
+            return [(nd[0], nd[1], nd[2], noempty(nd[3])) if nd[0] == "e" else nd for nd in ns if nd != ("t", "")]
+        exp = intended(noempty(nodes), iter(offsets), text)
+        # direct oracle of the statement about raw text: one string child of the container's class with exactly the written text
+        direct = soup is not None
+        if soup is not None:
+            els = [el for el in soup.find_all(["script", "style"])]
+            direct = len(els) == len(raws)
+            for el, (nm, t) in zip(els, raws):
+                kids = list(el.contents)
+                want_cls = Script if nm == "script" else Stylesheet
+                # the builder's rule for a string of ASCII whitespace only outside <pre>/<textarea> (`normalise`; C03): one "\n" or " "
+                want = t if t.strip(" \n\t\x0c\r") else ("\n" if "\n" in t else " ")
+                if el.name != nm or (len(kids) != (1 if t else 0)) or (t and (type(kids[0]) is not want_cls or str(kids[0]) != want)):
+                    direct = False
+        holds = same_stream and got == nm_ and got == exp and direct
+        if ok:
+            ctx.case(("written-raw", text), sample={"text": text[:200], "tree": got[:200]} if len(ctx.samples) < 10 else None)
+            ctx.count("written-raw:WritableRaw")
+            if any("<" in t or "&" in t for _, t in raws):
+                ctx.count("written-raw:WritableRaw:text-with-<-or-&")
+            if any("</" in t for _, t in raws):
+                ctx.count("written-raw:WritableRaw:text-with-</")
+            if not holds:
+                what = ("the tokenizer's callbacks are not `emit`" if not same_stream else "the real parse is not `normalise`" if got != nm_
+                        else "the tree differs from the tree the markup describes" if got != exp
+                        else "a raw text is not ONE Script/Stylesheet string with the written text")
+                ctx.violation("parse_of_written_document_raw fails on the real code: " + what, case=case, observed=got, model=nm_, expected=exp,
+                              stream="written-raw")
+        else:
+            ctx.case(None)
+            ctx.count("written-raw:not-WritableRaw:" + ("conclusion-fails-on-the-real-code" if not holds else "conclusion-holds(condition-is-sufficient-only)"))
+    ctx.count("written-raw:documents", len(meta))
+
+
 SOUP_TOKENS = ["<", ">", "</", "/>", "<a", "<b", "<br", "<br>", "<br/>", "</br>", "<p>", "</p>", "</a>", "<pre>", "</pre>", "<script>",
                "</script>", "<textarea>", "x", " ", "\n", "=", "\"", "'", "&", "&#", "&#x", "&amp;", "&lt", "&#65;", "&#150;", "&#x110000;",
                "&#0;", "&#xD800;", ";", "<!--", "-->", "--", "<![CDATA[", "]]>", "<!DOCTYPE html>", "<!doctype", "<!x>", "<?", "?>", "<![if x]>",
@@ -1036,6 +1168,8 @@ def run(ctx: Ctx):
     # tokenizer-model: the callback stream this check records is also what the Lean model of the tokenizer (Model/Tokenizer.lean, theorems in
     # Props/TK.lean) computes from the text - on every text of every stream above, rejected ones included
     from . import tk
+    # written documents with <script>/<style> (parse_of_written_document_raw); their texts join the tokenizer-model stream
+    raw_text_stream(ctx, drv, tk_texts)
     tk.stream(ctx, list(tk_texts), name="tokenizer-model", drv=drv)
     # parse_of_written_document: Lean writeText = the Python writer's plain text, Writable holds, derivedPos = the writer's offsets,
     # recorder(text) = Lean tokenizer(text) = emit (up to data chunking), ParamsOK for the real str.lower / html.unescape
